@@ -45,3 +45,19 @@ SPEC_ENTRY = {'title': 'Completions are consumed exactly once in any order; desc
               '  /\\ na_add s1 [] [mkBuf 2 8 200] = (Ok 1, s2, e2) /\\ na_available_desc s2 = 0 /\\ q_avail_idx s2 = 1\n'
               '  /\\ na_add s2 [mkBuf 3 8 300] [] = (Err EQueueFull, s2, []).\n'
               'Proof. do 4 eexists; vm_compute; repeat split; reflexivity. Qed.']}
+
+# ---- the monitors evaluated on the IMPLEMENTATION's observations, tied to the statements they stand for (Proofs/QueueMonProofs.v):
+# ---- "meaning" = what a true verdict implies, for any input list; "holds_of_model" = no false alarm on code that behaves like the model
+SPEC_ENTRY['imports'] += [m for m in ['Extract.QueueMon', 'Proofs.QueueMonProofs'] if m not in SPEC_ENTRY['imports']]
+SPEC_ENTRY['theorems'] += [
+  ('C03_monitor_161_meaning', 'Proofs/QueueMonProofs.v', 'mon161_sound', 'monitor 161: a published completion for the presented token is consumed'),
+  ('C03_monitor_162_meaning', 'Proofs/QueueMonProofs.v', 'mon162_sound', 'monitor 162: can_pop iff pending, peek_used is Some iff pending and names the id mod 2^16'),
+  ('C03_monitor_163_meaning', 'Proofs/QueueMonProofs.v', 'mon163_sound', 'monitor 163: a chain longer than the queue is refused with QueueFull, shares nothing, changes nothing'),
+  ('C03_monitor_163_holds_of_model', 'Proofs/QueueMonProofs.v', 'mon163_complete', 'monitor 163 is true of every add of the model in a reachable state (from C03_refusal)'),
+  ('C03_monitor_168_meaning', 'Proofs/QueueMonProofs.v', 'mon168_sound', 'monitor 168: available_desc is size - held on a direct queue; SIZE while a descriptor is free and 0 otherwise on an indirect one'),
+  ('C03_monitor_168_holds_of_model', 'Proofs/QueueMonProofs.v', 'mon168_complete', 'monitor 168 is true in every reachable model state (from C03_counts)'),
+  ('C03_monitor_159_meaning', 'Proofs/QueueMonProofs.v', 'mon159_sound', 'monitor 159: a refused poll changes nothing and has no effect'),
+  ('C03_monitor_149_meaning', 'Proofs/QueueMonProofs.v', 'mon149_sound', 'monitor 149: a refused table allocation ends in an error or clean panic with nothing shared and nothing changed, or is coped with without touching any outstanding chain'),
+  ('C03_monitor_149_holds_of_model', 'Proofs/QueueMonProofs.v', 'mon149_complete', 'monitor 149 is true of the add of the model under a refusing heap in ANY state (from C03_alloc_failure)'),
+  ('C03_monitor_arity', 'Proofs/QueueMonProofs.v', 'inline_monitor_arity', 'the fixed-arity monitors accept only lines of their own arity: the explicit lists in the meaning theorems lose nothing'),
+]
